@@ -371,6 +371,34 @@ def run(tier="quick"):
                       "descriptor the object never opened" % f.name,
                proof="a store of a negative constant (or of a system call's answer) to fd reaches every successful return")
     chk.count("socket_initialisers", ninit, floor=2)
+    # F8 the object's record of the descriptor's blocking mode stays in step with the descriptor: a function that reports it has
+    # switched the mode (set_nbio / clear_nbio) has updated the NBIO flag on every path to that answer - accept() copies the flag
+    # to the accepted socket and recv() stops at the first EAGAIN of a socket marked non-blocking
+    chk.rule("F8", "set_nbio / clear_nbio update the object's NBIO flag on every successful path")
+    nmode = 0
+    for f in u.functions.values():
+        if f.body is None or f.cfg is None or not re.search(r"_(set|clear)_nbio$", f.name) or not f.params:
+            continue
+        me8 = "d%d->flags" % f.params[0]["d"]
+        cfg8 = nullness.prepared_cfg(f, NORETURN)
+        bad8 = []
+
+        def t8(state, n, blk, me8=me8):
+            if n.get("k") == "assign" and X.apath(n["ch"][0]) == me8:
+                return frozenset({("flagged",)})
+            return state
+
+        def v8(state, n, blk, bad8=bad8):
+            if n.get("k") == "return" and n.get("val") is not None and (X.const_val(n["val"]) or 0) != 0 and ("flagged",) not in state \
+                    and not any(m_.startswith("b:ASSERT") or m_.startswith("b:REQUIRE") for m_ in n.get("m", [])):
+                bad8.append(n)
+        flow.forward(cfg8, frozenset(), t8, visit=v8)
+        nmode += 1
+        chk.ob("F8", f.name, "mode-flag-updated", not bad8, loc=f.loc(bad8[0]) if bad8 else f.loc(f.body),
+               detail="%s reports success on a path on which it has not stored the object's flags: the NBIO flag no longer says what mode "
+                      "the descriptor is in, an accepted socket inherits the wrong mode and recv() on it stops at the first EAGAIN" % f.name,
+               proof="a store to self->flags reaches every successful return")
+    chk.count("blocking_mode_functions", nmode, floor=2)
     send = prog.need("spif_socket_send")
     nw = check_send(chk, prog, send)
     # receive path
